@@ -129,6 +129,7 @@ pub fn c12(opts: &Opts, out: &mut Out) {
                     merlin::tap::start();
                     fm::tap_start();
                     let r = fmrun::Proof::verify_batch(&mut [vt], std::slice::from_ref(&stmt_v), std::slice::from_ref(&proof), VerifyAction::VerifyOnly);
+                    let whole = fm::tap_is_whole_check();
                     let residuals = fm::tap_take();
                     let recs = merlin::tap::take();
                     out.oracle("C12:cross-capacity-accepted", r.is_ok(), &key, &format!("err={:?}", r.as_ref().err()));
@@ -137,7 +138,7 @@ pub fn c12(opts: &Opts, out: &mut Out) {
                             let w = fmx::weights_of(&recs);
                             out.req(
                                 format!("verify {} {} {} w={}", fmx::stmt_wire(&inst, &stmt_v.generators, &stmt_v.commitments), fmx::parts(&proof).wire(), ch.wire(), w.first().map(hs).unwrap_or("00".into())),
-                                format!("res={} verdict={} msms={}", fmx::vstr(res), if r.is_ok() { "ok" } else { "err" }, residuals.len()),
+                                format!("res={} verdict={} msms={} whole={}", fmx::vstr(res), if r.is_ok() { "ok" } else { "err" }, residuals.len(), whole as u8),
                             );
                         }
                     }
@@ -184,6 +185,7 @@ pub fn c12(opts: &Opts, out: &mut Out) {
             fm::tap_start();
             let r = fmrun::Proof::verify_batch(&mut ts, &stmts, &proofs, VerifyAction::VerifyOnly);
             let msm_in = fm::msm_inputs();
+            let tap_consistent = fm::tap_is_whole_check();
             let _ = fm::tap_take();
             let recs = merlin::tap::take();
             // chunk-level scalar tie: accumulated static vectors, concatenated dynamic scalars
@@ -216,7 +218,7 @@ pub fn c12(opts: &Opts, out: &mut Out) {
                         .collect();
                     out.req(
                         format!("bscalars n={} t={} maxN={} pad={} members={}", n, t, max_n, table - 2 * max_n, members.join("|")),
-                        format!("static={} dynamic={} table={} msms={}", hlist(st), hlist(dy), table, msm_in.len()),
+                        format!("static={} dynamic={} table={} msms={} consistent={}", hlist(st), hlist(dy), table, msm_in.len(), tap_consistent as u8),
                     );
                 }
             }
